@@ -549,7 +549,18 @@ func main() {
 		}
 		out := map[string]result{}
 		for _, i := range idx {
-			out[cs[i].name] = cs[i].fn(func(string, func() []byte) {})
+			func() {
+				// a panic of the library in the middle of a batch must not take the other golden results with
+				// it: it becomes that call's result (the opposite-order batch, where the call has another
+				// history, then disagrees - or agrees, and every history is compared with it)
+				defer func() {
+					if p := recover(); p != nil {
+						origin, _, _ := run.PanicOrigin()
+						out[cs[i].name] = result{Err: "panic in " + origin}
+					}
+				}()
+				out[cs[i].name] = cs[i].fn(func(string, func() []byte) {})
+			}()
 		}
 		b, _ := stdjson.Marshal(out)
 		os.Stdout.Write(b)
